@@ -15,7 +15,7 @@ var (
 // every oracle; kinds outside the property under check are counted as
 // out_of_scope in the evidence and not reported by this check.
 var claims = map[string][]string{
-	"C01":      {"lost-event", "overflow-not-reported"},
+	"C01":      {"lost-event", "overflow-not-reported", "reader-stuck"},
 	"C02":      {"phantom-event", "housekeeping-event"},
 	"C03":      {"order"},
 	"C04":      {"watchlist-mismatch", "wrong-error", "panic", "history-not-explainable"},
@@ -24,11 +24,11 @@ var claims = map[string][]string{
 	"C07":      {"data-race", "panic", "deadlock", "blocked-control-op", "close-not-returning", "history-not-explainable", "watchlist-mismatch", "wrong-error", "not-linearizable"},
 	"C08":      {"name-mismatch"},
 	"C09":      {"watchlist-mismatch", "wrong-error", "lost-event", "phantom-event"},
-	"C10":      {"spurious-error", "overflow-not-reported", "dead-after-overflow"},
+	"C10":      {"spurious-error", "overflow-not-reported", "dead-after-overflow", "reader-stuck"},
 	"C11":      {"renamed-from-mismatch"},
 	"C12":      {"kernel-mark-orphan", "kernel-mark-missing", "table-size", "foreign-watch"},
 	"C13":      {"fd-leak", "task-leak", "foreign-watch"},
-	"C14":      {"cap-mismatch", "stream-divergence", "lost-event", "phantom-event", "order", "foreign-watch", "absorb-failed"},
+	"C14":      {"cap-mismatch", "stream-divergence", "lost-event", "phantom-event", "order", "foreign-watch", "absorb-failed", "reader-stuck"},
 	"C17":      {"kq-fd-leak", "kq-table-leak", "kq-internal-path-listed", "task-leak", "panic", "deadlock"},
 	"C18":      {"kq-event-mismatch", "kq-duplicate-create", "kq-missing-create", "panic", "script-mismatch"},
 	"KQSCRIPT": {"script-mismatch", "panic", "deadlock"},
